@@ -78,6 +78,10 @@ def jobs(tier, seed):
         for t in Z.transition_days(z):
             for back in range(0, 7):
                 js.append({"zone": z, "date": (t - datetime.timedelta(days=back)).isoformat(), "tier": "dst-" + tier})
+    # the turn of the month and of the year (tomorrow is the 1st)
+    for z in ("UTC", "Pacific/Kiritimati", "America/New_York"):
+        for d in ("2024-12-30", "2024-12-31", "2025-01-01", "2024-02-28", "2024-02-29", "2025-02-28", "2024-04-30"):
+            js.append({"zone": z, "date": d, "tier": "dst-" + tier})
     return js
 
 
